@@ -7,7 +7,7 @@ export GOFLAGS=-mod=mod GOPROXY=off
 # that two runs do not share them
 GM_DIR=${GM_DIR:-/verif/seeded}; GM_TAG=${GM_TAG:-a}
 cd /verif/translate && go build -o /tmp/verifgen-gm$GM_TAG . || exit 2
-MODS=$(ls /verif/lean/Gribi/Props/GenEquiv/*.lean | sed 's#.*/##; s#\.lean##' | sed 's#^#Gribi.Props.GenEquiv.#')
+MODS=${GM_MODS:-$(ls /verif/lean/Gribi/Props/GenEquiv/*.lean | sed 's#.*/##; s#\.lean##' | sed "s#^#Gribi.Props.GenEquiv.#")}
 [ $# -eq 0 ] && set -- $(ls $GM_DIR | grep -v MATRIX)
 rm -rf /tmp/gm${GM_TAG}_lean; cp -r /verif/lean /tmp/gm${GM_TAG}_lean
 for id in "$@"; do
